@@ -220,7 +220,7 @@ theorem apply_inv (c : Chan) (op : Op) (h : Inv c) : Inv (apply c op) := by
     · split
       · exact h
       · rename_i hal
-        have hal : c.alive = true := by simpa using hal
+        have hal : c.alive = true := by simp at hal; exact hal.1
         split
         · exact ⟨h.s, h.sa, h.a, h.aa⟩
         · have := h.sa hal
@@ -232,7 +232,7 @@ theorem apply_inv (c : Chan) (op : Op) (h : Inv c) : Inv (apply c op) := by
     · split
       · exact h
       · rename_i hal
-        have hal : c.alive = true := by simpa using hal
+        have hal : c.alive = true := by simp at hal; exact hal.1
         split
         · have := h.aa hal
           exact ⟨h.s, h.sa, by simp [← this], fun _ => by simp [← this]⟩
@@ -415,7 +415,7 @@ theorem oversize_not_delivered (c : Chan) (picks : List Nat)
     · exact taskLoop_sizes 4096 c picks h
 
 def demoCfg : Cfg := { syncCap := 2, asyncCap := 1, notifCap := 2, pipeCap := 16, maxSize := 32 }
-def demo : Chan := [Op.sync ⟨0, 1, 5⟩, .sync ⟨0, 2, 5⟩, .async ⟨1, 1, 5⟩, .poll [], .read 12 [(0, 1), (1, 1)]].foldl apply (reopen { cfg := demoCfg, viewHas := true })
+def demo : Chan := [Op.user, .sync ⟨0, 1, 5⟩, .sync ⟨0, 2, 5⟩, .async ⟨1, 1, 5⟩, .poll [], .read 12 [(0, 1), (1, 1)]].foldl apply (reopen { cfg := demoCfg })
 
 example : demo.delS = [⟨0, 1, 5⟩] ∧ demo.delA = [⟨1, 1, 5⟩] ∧ demo.accS.length = 2 := by decide
 example : (syncSend { cfg := demoCfg, viewHas := true, alive := true, syncQ := [⟨0, 1, 5⟩, ⟨0, 2, 5⟩] } ⟨0, 3, 5⟩).2 = (.clogged, true) := by decide
@@ -424,8 +424,8 @@ example : (taskPoll { cfg := demoCfg, alive := true, inQ := [⟨2, 1, 4⟩, ⟨2
 
 /-- Back-pressure (boundary 10 bytes, pipe of 4): the task sends a1 and s1, parks s2; the remote reads 4 bytes. -/
 def bpCfg : Cfg := { syncCap := 2, asyncCap := 1, notifCap := 2, pipeCap := 4, maxSize := 32, boundary := 10 }
-def bpParked : Chan := [Op.sync ⟨0, 1, 5⟩, .sync ⟨0, 2, 5⟩, .async ⟨1, 1, 5⟩, .poll [1, 0], .read 4 []].foldl apply
-  (reopen { cfg := bpCfg, viewHas := true })
+def bpParked : Chan := [Op.user, .sync ⟨0, 1, 5⟩, .sync ⟨0, 2, 5⟩, .async ⟨1, 1, 5⟩, .poll [1, 0], .read 4 []].foldl apply
+  (reopen { cfg := bpCfg })
 def bpDrained : Chan := [Op.poll [], .read 4 [(1, 1)], .poll [], .read 4 [(0, 1)], .poll [], .read 4 [], .poll [],
   .read 2 [(0, 2)]].foldl apply bpParked
 
